@@ -11,5 +11,16 @@ def run(v, tier, rng):
         tlc_require_ok(r, n)
         v.add_tlc("proto/Bus.tla:" + n + "_mc.cfg", r)
         replay_proto(v, "bus", raw, "proto/Bus.tla", n + "_gen.cfg", rng, nrandom=300, auto=True, limit=None if thorough else 5000)
+    # the non-blocking form of send (known finding: always NNG_EAGAIN on BUS): probed separately so that the
+    # graphs above are replayed completely
+    base = sig_proto("bus")
+
+    def sig_nb(acts, idx, step, allowed):
+        a = acts[idx] if idx < len(acts) else {}
+        if (a.get("a") == "send" and a.get("mode") == "nb" and step and allowed and (step[1] or {}).get("rv") == "eagain"
+                and allowed[0]["out"].get("rv") == "ok" and not (step[1] or {}).get("msglost")):
+            return "bus.send.nb:eagain-when-can-send"
+        return base(acts, idx, step, allowed)
+    replay_proto(v, "bus", False, "proto/Bus.tla", "Bus_nb.cfg", rng, nrandom=50, auto=True, limit=300, sig_override=sig_nb)
     v.cov["distinct_nontrivial"] = sum(x["edges"] for x in v.cov["edge_cover"].values())
     v.cov["rule"] = "every transition of the Bus graphs (cooked, raw) replayed in run-to-quiescence steps through the harness transport"
